@@ -7,12 +7,17 @@ EXTENDS Fn
 CONSTANTS N, QUICK
 VARIABLES u, v, w, a, b, phase
 vars == <<u, v, w, a, b, phase>>
-E == IF QUICK THEN {R(-2), R(0), R(1), <<3, 2>>} ELSE {R(-2), R(-1), R(0), R(1), R(2), <<3, 2>>, <<-1, 3>>}
+\* thorough: seven entry values in dimensions 1 and 2, five in dimensions 3 and 4 (the state count is |Vecs|^2 * |WVecs| * |Scal|^2)
+E == IF QUICK THEN {R(-2), R(0), R(1), <<3, 2>>}
+     ELSE IF N <= 2 THEN {R(-2), R(-1), R(0), R(1), R(2), <<3, 2>>, <<-1, 3>>} ELSE {R(-2), R(0), R(1), <<3, 2>>, <<-1, 3>>}
 Vecs == CASE N = 1 -> {<<x>> : x \in E} [] N = 2 -> {<<x, y>> : x \in E, y \in E}
           [] N = 3 -> {<<x, y, z>> : x \in E, y \in E, z \in E}
           [] N = 4 -> {<<x, y, z, t>> : x \in E, y \in E, z \in {R(0), R(1)}, t \in {R(-2), <<3, 2>>}}
-WVecs == IF QUICK /\ N >= 3 THEN {[i \in 1..N |-> Norm(2 * i - 3, i)], [i \in 1..N |-> R(i % 2)]} ELSE Vecs
-Scal == {R(2), <<-1, 2>>, R(0)} \cup (IF QUICK THEN {} ELSE {R(-3), <<2, 3>>})
+WVecs == IF QUICK /\ N >= 3 THEN {[i \in 1..N |-> Norm(2 * i - 3, i)], [i \in 1..N |-> R(i % 2)]}
+         ELSE IF QUICK \/ N = 1 THEN Vecs
+         ELSE {[i \in 1..N |-> Norm(2 * i - 3, i)], [i \in 1..N |-> R(i % 2)], [i \in 1..N |-> Zero], [i \in 1..N |-> R(3 - i)],
+               [i \in 1..N |-> Norm(-1, i + 1)], [i \in 1..N |-> IF i = N THEN One ELSE Zero]}
+Scal == {R(2), <<-1, 2>>, R(0)} \cup (IF QUICK \/ N >= 3 THEN {} ELSE {R(-3), <<2, 3>>})
 Init == u = <<>> /\ v = <<>> /\ w = <<>> /\ a = Zero /\ b = Zero /\ phase = "u"
 Next == \/ phase = "u" /\ \E x \in Vecs : u' = x /\ phase' = "v" /\ UNCHANGED <<v, w, a, b>>
         \/ phase = "v" /\ \E x \in Vecs : v' = x /\ phase' = "w" /\ UNCHANGED <<u, w, a, b>>
